@@ -22,6 +22,57 @@ fn_ipow = Fn("ipow", NUMERIC, ["namespace covfie::utility"], "ipow",
 unit(Unit("numeric", [fn_round_pow2, fn_ipow], "contracts/numeric.h", "lemmas/c18.c"))
 
 
+# ---------------------------------------------------------------- morton
+MORTON = CORE + "backend/transformer/morton.hpp"
+COMMON_SUBST = [
+    ("typename contravariant_input_t::vector_t", "IN_VEC_T", 0),
+    ("typename contravariant_input_t::scalar_t", "IN_SCALAR_T", 0),
+    ("typename contravariant_output_t::scalar_t", "B_IN_SCALAR_T", 0),
+    ("contravariant_input_t::dimensions", "DIMS_IN", 0),
+    ("contravariant_output_t::dimensions", "DIMS_B_IN", 0),
+    ("covariant_output_t::dimensions", "DIMS_OUT", 0),
+]
+MAXEL = (r"\*\s*std::max_element\s*\(\s*(\w+)\.begin\(\)\s*,\s*\1\.end\(\)\s*\)", r"verif_max_element(\1.m_data, DIMS_IN)", 1, True)
+
+
+def numeric_fns_size_t():
+    return [fn_round_pow2, fn_ipow]
+
+
+def make_morton(name, consts, N="2"):
+    n = int(N)
+    fns = numeric_fns_size_t()
+    fns.append(Fn("morton_pdep_compute", MORTON, ["struct morton_pdep_mask"], "compute",
+                  ret="size_t", ptypes=["IN_VEC_T", None], params_hint=r"index_sequence",
+                  vec_types=["IN_VEC_T"],
+                  fold=("Idxs", list(range(n))),
+                  subst_post=[(r"get_mask\s*<\s*(\d+)\s*>\s*::\s*value", r"VERIF_MORTON_MASK_N%d_I\1" % n, n, True)],
+                  must={"R8_fold": 1}))
+    fns.append(Fn("morton_calculate_index", MORTON, ["struct morton"], "calculate_index",
+                  ret="size_t", ptypes=["IN_VEC_T"], vec_types=["IN_VEC_T"],
+                  subst=COMMON_SUBST + [
+                      (r"(?s)morton_pdep_mask\s*<.*?>\s*::\s*compute", "morton_pdep_compute", 1, True),
+                      ("use_bmi2", "VERIF_USE_BMI2", 1),
+                  ],
+                  must={"R6_if_constexpr": 1, "R1_cast": 1}))
+    fns.append(Fn("morton_at", MORTON, ["struct morton", "struct non_owning_data_t"], "at",
+                  ret="OUT_VEC_PTR_T", ptypes=["IN_VEC_T"], vec_types=["IN_VEC_T"],
+                  method="const MORTON_SELF_T *self", members=["m_sizes"], arrays=["m_sizes"],
+                  subst=COMMON_SUBST + [("m_storage.at(", "backend_at(", 1), ("calculate_index(", "morton_calculate_index(", 1)],
+                  must={"R11_member": 1}))
+    expr_subst = [("utility::ipow", "ipow", 1), ("utility::round_pow2", "round_pow2", 1), MAXEL] + COMMON_SUBST
+    fns.append(Fn("morton_alloc_size_copy", MORTON, ["struct morton"], "make_morton_copy", kind="expr",
+                  expr_rx=r"utility::ipow\s*\(", ret="size_t", ptypes=["ND_SIZE_T"], pnames=["sizes"],
+                  subst=expr_subst))
+    fns.append(Fn("morton_alloc_size_ctor", MORTON, ["struct morton", "struct owning_data_t"], "owning_data_t", kind="expr",
+                  params_hint=r"const\s+T\s*&", expr_in_header=True,
+                  expr_rx=r"utility::ipow\s*\(", ret="size_t", ptypes=["ND_SIZE_T"], pnames=["m_sizes"],
+                  subst=expr_subst))
+    return Unit(name, fns, "contracts/morton.h", "lemmas/morton.c",
+                stubs=["stubs/backend.h"],
+                pre_includes=["stubs/numeric_size_t.h", "contracts/numeric.h", "stubs/pdep.h", "stubs/algorithm.h"])
+
+
 def get_unit(name, consts=None):
     """name is 'base' or 'base@k=v,k=v' for units whose extraction depends on template arguments."""
     if name in UNITS:
@@ -32,3 +83,4 @@ def get_unit(name, consts=None):
 
 
 FACTORIES = {}
+FACTORIES["morton"] = make_morton
